@@ -98,7 +98,9 @@ class CallMixin(ExprMixin):
             if n in C.SPECFNS:
                 args = [self.ev1(a, st)[1] for a in e.args]
                 return [(st, C.SPECFNS[n](self, st, *args))]
-        hooks_b = [h for h in self.c.hooks if h[0] == "before" and _match(h[1], ftext)] if not self.spec else []
+        # pattern "callee" matches any call of it, "callee/N" only calls with N positional arguments
+        hooks_b = [h for h in self.c.hooks if h[0] == "before" and
+                   (_match(h[1], ftext) or _match(h[1], "%s/%d" % (ftext, len(e.args))))] if not self.spec else []
         res = []
         for s, f in self.ev(e.func, st):
             argexprs = list(e.args)
@@ -166,6 +168,10 @@ class CallMixin(ExprMixin):
             # exception construction: the value is the class id
             return [(st, V(EXC, f.t))]
         if f.ty != PYOBJ:
+            cm = self.find_call_model(ftext) if not self.spec else None
+            if cm is not None:
+                # calling a value that is a class/callable object (e.g. a request-struct class)
+                return self.apply_model(st, cm, f, args, kw, node, ftext)
             raise Unsupported("call of non-callable %s (line %s)" % (f.ty, self.cur_line))
         th = f.t
         k = th.kind
